@@ -427,12 +427,20 @@ def run(tier):
                       "drv/cobs.c moves bytes and follows the caller protocol without judgement",
                       "scaled ZPE: repository loops + pair macros re-stated for the scaled limit (cobs_seam.h)",
                       "exhaustive only at scaled block limits; production sizes by structured sampling"]
+    # extension X01: message deletion, text delimiters of 1..3 bytes, size query / reset of the decoders, encode_array,
+    # decode_queue peek (checks/x01_codec.py, docs/X01_codec.md)
+    import x01_codec
+    if x01_codec.enabled():
+        x01_codec.run_part(ck, tier)
     return ck.finish()
 
 
 def replay(path):
     d = json.load(open(path))
     det = d["detail"]
+    if det.get("part") == "x01_codec":
+        import x01_codec
+        return x01_codec.replay(det, path)
     beh = det.get("behaviour")
     if not beh:
         print(json.dumps(det, indent=1)[:4000])
